@@ -66,4 +66,20 @@ def run(V, names):
             obs.append(LeakOb(s, n, ok, "public operand" if not s.secret else "declassified"))
         recs.append({"function": n, "config": "default", "mode": "flow", "body": "go/ssa", "partitions": ["flow"], "paths": 1,
                      "obligations": len(sinks), "trusted": False, "secs": 0.0})
+    # helpers without a contract that `leak none` functions call: analysed under the default contract (all secret)
+    done = set()
+    while True:
+        todo = [f for f in getattr(V, "flow_extra", []) if f["name"] not in done]
+        if not todo:
+            break
+        from .cparse import FuncContract
+        for f in todo:
+            done.add(f["name"])
+            n = V.display_name(f)
+            c = FuncContract(f["short"], [p["name"] for p in f["params"]], f.get("pkg", ""), 0)
+            sinks, notes = flow.analyse(V, f, c)
+            for s in sinks:
+                obs.append(LeakOb(s, n, not s.secret, "public operand"))
+            recs.append({"function": n + " (no contract: analysed as leak none, all parameters secret)", "config": "default", "mode": "flow", "body": "go/ssa",
+                         "partitions": ["flow"], "paths": 1, "obligations": len(sinks), "trusted": False, "secs": 0.0})
     return obs, recs, decl
